@@ -215,6 +215,19 @@ def code_drift():
     return sorted(k for k in set(cur) | set(ref) if cur.get(k) != ref.get(k))
 
 
+def theorem_modules(theorems):
+    """the Properties modules in which the registered theorems are stated (by name): the obligations of a property
+    are these modules, so that a module of ANOTHER property that no longer builds does not break this one"""
+    mods = {}
+    for path in sorted(glob.glob(os.path.join(LEAN, "Properties", "*.lean"))):
+        body = open(path).read()
+        mod = "Properties." + os.path.basename(path)[:-5]
+        for t in theorems:
+            if t not in mods and re.search(r"^theorem %s\b" % re.escape(t), body, re.M):
+                mods[t] = mod
+    return mods
+
+
 def build_lean(targets=None):
     """lake build (incremental). Returns (ok, log)."""
     cmd = ["lake", "build"] + (targets or [])
@@ -264,7 +277,7 @@ def grep_forbidden():
     return hits
 
 
-def audit_axioms(theorems):
+def audit_axioms(theorems, imports=None):
     """#print axioms for each theorem; returns dict name -> (ok, axioms list or error)"""
     if not theorems:
         return {}
@@ -281,7 +294,8 @@ def audit_axioms(theorems):
         cache = {"key": key, "results": {}}
     missing = [t for t in theorems if t not in cache["results"]]
     if missing:
-        src = "import Properties\nopen NS\n" + "\n".join("#print axioms %s" % t for t in missing) + "\n"
+        src = "".join("import %s\n" % m for m in (imports or ["Properties"])) + "open NS\n" + \
+            "\n".join("#print axioms %s" % t for t in missing) + "\n"
         d = tempfile.mkdtemp(prefix="nsaudit")
         try:
             fp = os.path.join(d, "Audit.lean")
